@@ -18,13 +18,14 @@ Each property's driver calls run(chk, pid): only mismatches attributed to pid ar
 """
 import copy
 import json
+import zlib
 import os
 import pickle
 import warnings
 
 import numpy as np
 
-from harness import tlc, fcsgen, heapreplay
+from harness import tlc, fcsgen, heapreplay, loadform
 
 import FlowCal.io
 import FlowCal.transform
@@ -118,10 +119,10 @@ class World(object):
                     for scale in ('linear', 'log', 'logicle'):
                         self.ref_bins[(ch, u, scale)] = np.asarray(x.hist_bins(NAMES[ch - 1], scale=scale)).tobytes()
 
-    def load(self):
+    def load(self, k=0):
         with warnings.catch_warnings():
             warnings.simplefilter('ignore')
-            return FlowCal.io.FCSData(self.path)
+            return FlowCal.io.FCSData(loadform.arg(self.path, k))     # from its path, an open handle, a file-like object
 
 
 def spell(o, L, sp):
@@ -129,7 +130,7 @@ def spell(o, L, sp):
     out = []
     for k, p in enumerate(L):
         name = o.channels[p - 1]
-        if sp == 'name' or (sp == 'mixed' and k % 2 == 0):
+        if sp == 'name' or (sp == 'mixed' and k % 2 == 0) or (sp.startswith('m:') and sp[2 + k] == 'n'):
             out.append(name)
         else:
             out.append(p - 1)
@@ -163,15 +164,15 @@ def apply_step(W, o, step):
                 return o[[-1, 0]], None
             if op == 'rfi':
                 L = spell(o, A, sp)
-                return FlowCal.transform.to_rfi(o, L[0] if len(L) == 1 and sp == 'pos' else L), None
+                return FlowCal.transform.to_rfi(o, L[0] if len(L) == 1 and sp in ('pos', 'm:p') else L), None
             if op == 'rfi_all':
                 return FlowCal.transform.to_rfi(o), None
             if op == 'mef':
                 L = spell(o, A, sp)
-                return W.to_mef(o, L[0] if len(L) == 1 and sp == 'name' else L), None
+                return W.to_mef(o, L[0] if len(L) == 1 and sp in ('name', 'm:n') else L), None
             if op == 'hl':
                 L = spell(o, A, sp)
-                return FlowCal.gate.high_low(o, channels=L[0] if len(L) == 1 and sp == 'name' else L), None
+                return FlowCal.gate.high_low(o, channels=L[0] if len(L) == 1 and sp in ('name', 'm:n') else L), None
             if op == 'hl_all':
                 return FlowCal.gate.high_low(o), None
             if op == 'se':
@@ -320,8 +321,8 @@ def props_of(op, field):
     return base
 
 
-def start(W, init_unit):
-    o = W.load()
+def start(W, init_unit, k=0):
+    o = W.load(k)
     if init_unit:
         with warnings.catch_warnings():
             warnings.simplefilter('ignore')
@@ -332,7 +333,10 @@ def start(W, init_unit):
 def replay(W, st, init_unit=0, pid=None):
     """-> None or (props, label, detail, step index)"""
     hist = st['hist']
-    o, cols, rows = start(W, init_unit)
+    # (a sample loaded from an open file cannot be deep-copied or pickled - the handle cannot, by design: those
+    #  histories load from the path)
+    deep = any(h[0] == 'dup' and h[1][0] in (2, 4) for h in hist)
+    o, cols, rows = start(W, init_unit, 0 if deep else zlib.crc32(json.dumps(hist).encode()))
     for nm in NAMES:                      # the freshly loaded sample is asked by name too, as user code does
         o.range(nm)
     # the specification's state after each prefix is recomputed by the same step functions in Python only to
@@ -405,7 +409,7 @@ def py_step(cols, rows, step):
 
 CFG = ('SPECIFICATION Spec\nCONSTANTS MaxOps = %d\nInitUnit = %d\nINVARIANT TypeOK\nINVARIANT ColsDistinct\nINVARIANT RowsDistinct\n'
        'INVARIANT MefOnlyCalibrated\nINVARIANT NeverEmpty\nINVARIANT GateCommutes\nINVARIANT GateIdempotent\n'
-       'INVARIANT GateSequential\nPROPERTY UnitsMonotone\nPROPERTY ErrFrame\nPROPERTY RowsShrink\nPROPERTY ConvKeepsRows\n')
+       'INVARIANT GateSequential\nPROPERTY UnitsMonotone\nPROPERTY ErrFrame\nPROPERTY RowsShrink\nPROPERTY ConvKeepsRows\nPROPERTY ApplyAgrees\n')
 
 
 def relevant(pid, hist):
@@ -507,5 +511,160 @@ def run(chk, pid, n_sim=None, depth=None, init_units=(0, 1), every=1):
         # unbounded companion (extra): the structural invariants of Session are inductive (Apalache, sessions of any length)
         from harness import apalache
         chk.extra['apalache'] = apalache.inductive('SessionInd', indinit='IndInit')
+    stats['recorded_sessions'] = trace_run(chk, pid)
     chk.extra.setdefault('session', stats)
     return stats
+
+
+# ---- TRACE direction: random sessions of the real library, judged by spec/trace/Trace_Session -------------------------
+TRACE_FIELD = {'refused': 'raised', 'accepted': 'accepted', 'shape': 'values', 'channel': 'meta', 'units': 'values',
+               'rows': 'rows', 'range': 'range', 'meta': 'meta'}
+
+
+def project(W, o):
+    """the real sample in the vocabulary of Trace_Session"""
+    cols, rows, meta_ok = [], None, True
+    for j in range(o.shape[1]):
+        got = identify_col(W, o, j)
+        if got is None:
+            cols.append({'ch': 0, 'us': [], 'rus': []})
+            continue
+        ch, us, r = got
+        if us is not None:
+            if rows is None:
+                rows = r
+            elif rows != r:
+                us = None                      # this column holds other events than the first one: follows no law of the state
+        rng = o.range(j)
+        rus = [u for u in range(3) if len(rng) == 2 and float(rng[0]) == float(W.exp_range[(ch, u)][0]) and
+               float(rng[1]) == float(W.exp_range[(ch, u)][1])]
+        cols.append({'ch': ch, 'us': sorted(us) if us else [], 'rus': rus})
+        nm = NAMES[ch - 1]
+        want = (AMP[ch - 1], GAIN[ch - 1], float(PNV[ch - 1]), R[ch - 1], PNS[ch - 1])
+        try:
+            meta_ok = meta_ok and all((o.amplification_type(x), o.amplifier_gain(x), o.detector_voltage(x), o.resolution(x),
+                                       o.channel_labels(x)) == want for x in (j, nm)) and \
+                [float(v) for v in o.range(nm)] == [float(v) for v in rng]
+        except Exception:  # noqa
+            meta_ok = False
+    if rows is None:
+        rows = [0] * o.shape[0]
+    return cols, rows, bool(meta_ok)
+
+
+def enabled_steps(rnd, cols, rows, deep=True):
+    """one random step whose assumptions (Session.Pre) hold in the state (cols, rows)"""
+    n = len(cols)
+
+    def poslist(ok):
+        cand = [i + 1 for i in range(n) if ok(cols[i])]
+        if not cand:
+            return None
+        k = rnd.randint(1, len(cand))
+        return rnd.sample(cand, k)
+    for _ in range(50):
+        op = rnd.choice(['pick', 'slicec', 'rows', 'rfi', 'rfi_all', 'mef', 'hl', 'hl_all', 'se', 'dup', 'pick', 'rfi', 'mef', 'hl'])
+        if op in ('pick', 'hl'):
+            A = poslist(lambda c: True)
+        elif op == 'rfi':
+            A = poslist(lambda c: c[1] == 0)
+        elif op == 'mef':
+            A = poslist(lambda c: c[1] == 1)
+        elif op == 'rfi_all':
+            A = [] if all(c[1] == 0 for c in cols) else None
+        elif op == 'hl_all':
+            A = []
+        elif op == 'slicec':
+            a = rnd.randint(0, n - 1)
+            A = [a, rnd.randint(a + 1, n)]
+        elif op == 'rows':
+            k = rnd.randint(1, 6)
+            A = [k] if len(rows) >= 2 and len(py_step(cols, rows, ('rows', [k], 'pos'))[1]) >= 1 else None
+        elif op == 'se':
+            A = [rnd.randint(0, 3), rnd.randint(0, 3)]
+        else:
+            A = [rnd.randint(1, 4) if deep else rnd.choice([1, 3])]
+        if A is None:
+            continue
+        sp = 'pos'
+        if op in ('pick', 'rfi', 'mef', 'hl'):
+            sp = 'm:' + ''.join(rnd.choice('np') for _ in A)
+        return op, A, sp
+    return 'dup', [1], 'pos'
+
+
+def record_session(arg):
+    sid, seed = arg
+    import random
+    rnd = random.Random(seed)
+    W = _W
+    iu = rnd.randint(0, 1)
+    o, cols, rows = start(W, iu, seed)
+    pc, pr, pm = project(W, o)
+    out = [{'sid': sid, 'k': 0, 'iu': iu, 'op': 'start', 'A': [], 'out': 'ok', 'cols': pc, 'rows': pr, 'meta_ok': pm,
+            'input_same': True, 'dup_equal': True}]
+    for k in range(1, rnd.randint(3, 14) + 1):
+        op, A, sp = enabled_steps(rnd, cols, rows, deep=(seed % 3 == 0))
+        before = heapreplay.fingerprint(o)
+        new, exc = apply_step(W, o, (op, A, sp))
+        same = heapreplay.fingerprint(o) == before
+        rec = {'sid': sid, 'k': k, 'iu': iu, 'op': op, 'A': A, 'sp': sp, 'input_same': same, 'dup_equal': True}
+        if exc is not None or not isinstance(new, FlowCal.io.FCSData) or new.ndim != 2:
+            rec.update({'out': 'err' if exc is not None else 'ok', 'cols': [], 'rows': [], 'meta_ok': True,
+                        'detail': ('%s: %s' % (type(exc).__name__, exc))[:160] if exc is not None else 'not a 2-D sample'})
+        else:
+            pc, pr, pm = project(W, new)
+            rec.update({'out': 'ok', 'cols': pc, 'rows': pr, 'meta_ok': pm})
+            if op == 'dup':
+                f2 = heapreplay.fingerprint(new)
+                rec['dup_equal'] = all(before[x] == f2[x] for x in before)
+            o = new
+        out.append(rec)
+        cols, rows, _ = py_step(cols, rows, (op, A, sp))
+    return out
+
+
+def trace_run(chk, pid, n=None):
+    import multiprocessing as mp
+    import re
+    n = n or (250 if chk.quick else 4000)
+    with mp.get_context('fork').Pool(min(16, os.cpu_count() or 1)) as pool:
+        sessions = pool.map(record_session, [(i, chk.seed * 1000003 + i) for i in range(n)], chunksize=16)
+    recs = [r for s in sessions for r in s]
+    # negative control: one more session whose last step reports the events in another order
+    ctl = [dict(r, sid=n) for r in sessions[0][:2]]
+    if len(ctl[1].get('rows', [])) >= 2 and ctl[1]['out'] == 'ok':
+        ctl[1] = dict(ctl[1], rows=ctl[1]['rows'][1:] + ctl[1]['rows'][:1])
+    else:
+        ctl[1] = dict(ctl[1], input_same=False)
+    recs += ctl
+    tf = os.path.join(tlc.scratch('sesstr_'), 'trace.ndjson')
+    with open(tf, 'w') as f:
+        for r in recs:
+            f.write(json.dumps(r) + '\n')
+    res = tlc.run_tlc('Trace_Session', 'SPECIFICATION TSpec\nCONSTANTS MaxOps = 1000\nInitUnit = 0\nINVARIANT TColsDistinct\n'
+                      'INVARIANT TMefOnlyCalibrated\nPOSTCONDITION AllConsumed\n', workers=1, env={'TRACE_FILE': tf})
+    if not res.ok:
+        raise tlc.MachineryError('Trace_Session failed: ' + (res.error_text or res.stdout[-2000:]))
+    chk.add_tlc(res, 'Trace_Session')
+    rejects = {int(m.group(1)): m.group(2) for m in re.finditer(r'<<"REJECT", (\d+), "([^"]+)">>', res.stdout)}
+    chk.negative_control(len(recs) in rejects, 'Trace_Session accepted a session with a corrupted record')
+    rejects.pop(len(recs), None)
+    foreign = 0
+    for ln, verdict in sorted(rejects.items()):
+        rec = recs[ln - 1]
+        op, _, clause = verdict.partition('.')
+        if op in ('start', 'driver'):
+            raise tlc.MachineryError('Trace_Session: %s at line %d: %r' % (verdict, ln, rec))
+        props = {'C13'} if clause == 'input' else {'C20'} if clause == 'dup' else props_of(op, TRACE_FIELD[clause])
+        sess = [[r['op'], r['A'], r.get('sp', 'pos')] for r in sessions[rec['sid']][1:rec['k'] + 1]]
+        if pid in props:
+            chk.violation('%s/recorded-session/%s' % (pid, verdict), {'recorded_session': sess, 'init_unit': rec['iu']},
+                          {'observed': {x: rec[x] for x in ('out', 'cols', 'rows', 'meta_ok')}}, rec.get('detail', verdict))
+        else:
+            foreign += 1
+    for s in sessions:
+        chk.case(('recorded', s[0]['iu'], json.dumps([[r['op'], r['A'], r.get('sp')] for r in s[1:]])), nontrivial=len(s) > 3)
+        chk.traces += 1
+    return {'sessions': n, 'steps': len(recs) - n - 2, 'rejected_for_other_properties': foreign,
+            'longest': max(len(s) - 1 for s in sessions)}
